@@ -289,6 +289,13 @@ def directed():
                                'p2', 'u1', 'MIGRATION'),
         lambda m, p: put_inv(m, p, u0, {'VCPU': {'total': 16},
                                         'DISK_GB': {'total': 64, 'reserved': 1}}),
+        # a class (and with it a provider) dropped from the consumer's
+        # allocations: nothing of the old rows may survive (seed C11c)
+        lambda m, p: put_alloc(m, p, {u1: {'VCPU': 4}}, 'p2', 'u1', 'MIGRATION'),
+        lambda m, p: put_alloc(m, p, {u0: {'VCPU': 1, 'DISK_GB': 8}},
+                               'p2', 'u1', 'MIGRATION'),
+        lambda m, p: put_alloc(m, p, {u0: {'DISK_GB': 8}}, 'p2', 'u1',
+                               'MIGRATION'),
     ]
 
 
